@@ -592,10 +592,29 @@ func init() {
 		Title:   "teardown stops a pending read-deadline timer: Association.unregisterStream closes Stream.readTimeoutCancel whenever it is set (under no other condition), so the goroutine and timer started by SetReadDeadline do not outlive the stream",
 		MinInst: 1,
 		Run: func(c *RuleCtx) {
-			fn := c.Fn("Association.unregisterStream")
 			rc := c.field("Stream", "readTimeoutCancel")
-			n := 0
 			ks := keyer{}
+			// the same on the other path by which a stream leaves the registry: the peer's reset
+			// (Stream.onInboundStreamReset; the stream is deleted from Association.streams right after it)
+			{
+				rfn := c.Fn("Stream.onInboundStreamReset")
+				nr := 0
+				for _, g := range c.P.Region(rfn) {
+					forEachInstr(g, func(in ssa.Instruction) {
+						ci, isCall := in.(ssa.CallInstruction)
+						if !isCall {
+							return
+						}
+						b, isB := ci.Common().Value.(*ssa.Builtin)
+						if isB && b.Name() == "close" && IsLoadOf(rc)(ci.Common().Args[0]) {
+							nr++
+						}
+					})
+				}
+				c.Check(nr >= 1, "reset-stops-deadline-timer", c.P.Pos(rfn.Pos()), fmt.Sprintf("%d close site(s)", nr), "a stream reset by the peer is forgotten by the association without its read-deadline timer being stopped: the timer goroutine outlives Close until the deadline")
+			}
+			fn := c.Fn("Association.unregisterStream")
+			n := 0
 			for _, g := range c.P.Region(fn) {
 				forEachInstr(g, func(in ssa.Instruction) {
 					ci, isCall := in.(ssa.CallInstruction)
